@@ -126,7 +126,7 @@ func (c *client) collect() []string {
 			}
 			c.curOff[f.channel] = off + len(f.payload)
 		case frameHeartbeat:
-			s = "heartbeat"
+			continue // the broker's own heartbeats come when its ticker says: not part of the observation
 		default:
 			s = fmt.Sprintf("frame(type=%d)", f.typ)
 		}
